@@ -284,6 +284,19 @@ MUTANTS: List[Tuple[str, List[Tuple[str, str, str]], List[Tuple[str, str]]]] = [
      [('C18', 'FS-2')]),
     ('rc7-subgraph-from-descendants-only', [(G, "    subgraph: DiGraph = dag.subgraph({node_id for path in nx.all_simple_paths(dag, source, dest) for node_id in path})", "    subgraph: DiGraph = dag.subgraph(nx.descendants(dag, source) | {source})")],
      [('C11', 'RC-7')]),
+    # ---- round 8 of seeded changes / refactoring round 6 (DESIGN 9.19, 9.20)
+    ('er11-finished-tasks-pruned', [(M, "        task = asyncio.create_task(coro, name=name)\n", "        self._coro_tasks = [t_ for t_ in self._coro_tasks if not t_.done()]\n        task = asyncio.create_task(coro, name=name)\n")],
+     [('C02', 'ER-11'), ('C05', 'ER-11')]),
+    ('ex13-wrapper-converts-system-exit', [(N, "    except StopIteration as ex:\n        raise RuntimeError('node raised StopIteration') from ex\n", "    except (StopIteration, SystemExit, KeyboardInterrupt) as ex:\n        raise RuntimeError('node raised StopIteration') from ex\n")],
+     [('C12', 'EX-13'), ('C17', 'EX-13')]),
+    ('ex13-wrapper-wraps-every-exception', [(N, "    except StopIteration as ex:\n        raise RuntimeError('node raised StopIteration') from ex\n", "    except StopIteration as ex:\n        raise RuntimeError('node raised StopIteration') from ex\n    except Exception as ex:\n        raise RuntimeError(str(ex)) from ex\n")],
+     [('C12', 'EX-13')]),
+    ('oo4-case-dag-without-oneof-flag', [(M, "                    (self._node_storage.get_switch_result(node_id)).node_id,\n                    is_oneof=dag.is_oneof,\n", "                    (self._node_storage.get_switch_result(node_id)).node_id,\n")],
+     [('C05', 'OO-4'), ('C10', 'OO-4')]),
+    ('bd7-candidate-flag-only-on-first-visit', [(B, "                        self._dag.add_node(node_id, **{NodeField.is_oneof_child: True})\n", "                        if node_id not in self._dag:\n                            self._dag.add_node(node_id, **{NodeField.is_oneof_child: True})\n")],
+     [('C15', 'BD-7')]),
+    ('sw6-manager-reads-another-flag', [(M, "            return self.dag.graph.nodes[node_id].get(NodeField.is_switch) is True", "            return self.dag.graph.nodes[node_id].get('switch') is True")],
+     [('C09', 'SW-6'), ('C15', 'SW-6')]),
 ]
 
 ALL_PROPS = [f'C{n:02d}' for n in range(2, 21)]
